@@ -593,24 +593,17 @@ Qed.
 Definition left_clear (conf : list Z) (p : nat) : Prop :=
   forall q, (q < p)%nat -> (forall j, (q <= j < p)%nat -> nth j conf 0 <> LF) -> In (nth q conf 0) delims_left.
 
-(* what the code tests on the right of a keyword of length klen at p: the next character is a right delimiter
-   -- unless it is the LAST character of the string (not looked at), and a string that IS the keyword never matches *)
+(* the character that follows the keyword (of length klen, at p), if there is one, is a right delimiter *)
 Definition right_clear (conf : list Z) (p klen : nat) : Prop :=
-  length conf <> klen /\ ((p + klen + 1 < length conf)%nat -> In (nth (p + klen) conf 0) delims_right).
-
-(* the test one would expect: the next character, if there is one, is a right delimiter *)
-Definition right_clear_expected (conf : list Z) (p klen : nat) : Prop :=
   (p + klen < length conf)%nat -> In (nth (p + klen) conf 0) delims_right.
 
-Lemma isolated_right_iff : forall conf p klen, (p + klen <= length conf)%nat ->
+Lemma isolated_right_iff : forall conf p klen,
   (isolated_right conf p klen = true <-> right_clear conf p klen).
 Proof.
-  intros conf p klen Hb. unfold isolated_right, right_clear.
-  destruct (Nat.ltb_spec (length conf) (klen + 1)) as [L|L].
-  - assert (E : length conf = klen) by lia. rewrite nth_overflow by lia. cbn. split; [discriminate|]. intros [H _]. congruence.
-  - destruct (Nat.ltb_spec p (length conf - klen - 1)) as [L2|L2].
-    + rewrite memb_In. split; [intros H; split; [lia|intros _; exact H]|intros [_ H]; apply H; lia].
-    + split; [intros _; split; [lia|intros H; lia]|reflexivity].
+  intros conf p klen. unfold isolated_right, right_clear.
+  destruct (Nat.ltb_spec (p + klen) (length conf)) as [L|L].
+  - rewrite memb_In. split; [intros H _; exact H|intros H; apply H; exact L].
+  - split; [intros _ H; lia|reflexivity].
 Qed.
 
 Lemma lower_is_lf : forall c, lower c = LF -> c = LF.
@@ -701,8 +694,7 @@ Proof.
   - intros [Ho Cd]. apply andb_true_iff in Cd. destruct Cd as [Cd C3]. apply andb_true_iff in Cd. destruct Cd as [C1 C2].
     pose proof (occurs_bound _ _ _ Ho Hk') as Hb. rewrite !to_lower_length in Hb.
     pose proof (occurs_first_not_lf conf (to_lower key) p Ho Hk' Hc) as Hp.
-    repeat split; [exact Ho|apply isolated_left_iff; assumption| | |apply check_braces_iff; exact C3];
-      apply (isolated_right_iff conf p (length key) Hb) in C2; apply C2.
+    repeat split; [exact Ho|apply isolated_left_iff; assumption|apply isolated_right_iff; exact C2|apply check_braces_iff; exact C3].
   - intros [Ho [Hl [Hr Hbal]]]. split; [exact Ho|].
     pose proof (occurs_bound _ _ _ Ho Hk') as Hb. rewrite !to_lower_length in Hb.
     pose proof (occurs_first_not_lf conf (to_lower key) p Ho Hk' Hc) as Hp.
@@ -712,21 +704,3 @@ Proof.
     + apply check_braces_iff. exact Hbal.
 Qed.
 
-(* the expected right-hand test is not what the code does: two counterexamples *)
-Lemma right_isolation_refuted :
-  (* "colvarx": the keyword "colvar" is found although an 'x' follows it *)
-  (exists conf key, kl_position (key_lookup (fuel_of conf) conf key O) = Some O /\
-                    ~ right_clear_expected conf O (length key)) /\
-  (* "colvar": the keyword "colvar" is not found although nothing surrounds it *)
-  (exists conf key, key_lookup (fuel_of conf) conf key O = KL_notfound /\
-                    occurs (to_lower conf) (to_lower key) O /\ left_clear conf O /\
-                    right_clear_expected conf O (length key) /\ balanced conf).
-Proof.
-  split.
-  - exists [99; 111; 108; 118; 97; 114; 120], [99; 111; 108; 118; 97; 114]. split; [vm_compute; reflexivity|].
-    unfold right_clear_expected. cbn. intros H. specialize (H ltac:(lia)). unfold LF, SP, TAB, LBRACE in H.
-    destruct H as [H|[H|[H|[H|[]]]]]; discriminate.
-  - exists [99; 111; 108; 118; 97; 114], [99; 111; 108; 118; 97; 114]. repeat split.
-    + intros q Hq. lia.
-    + unfold right_clear_expected. cbn. lia.
-Qed.
